@@ -40,7 +40,7 @@ CHECKS.update({
          "Trusted: the literal definitions cited in the evidence; tolerance 0.5e-12 + 1e-10(1+|x|), D scaled by its cancelling terms.", "DESIGN.md §3 C06"),
  "C08": ("exploration", "exhaustive enumeration of the GT alphabet (942 strings x VCF/BCF x selected/unselected) + proptest embedding",
          "Every GT string over {., 0, 1, 2, 3, 10} x {/, |} x ploidy 1..3 in both decoding paths, selected and unselected, against the statement's classification (count index, skip reason in the trace, error naming contig:position, no effect when unselected); random call sets embed all classes mid-stream.",
-         "Soundness decision for the bare '.' string (skip or clean failure both accepted). Exhaustive in the stated alphabet.", "DESIGN.md §3 C08"),
+         "Exhaustive in the stated alphabet.", "DESIGN.md §3 C08"),
  "C09": ("exploration", "proptest metamorphic relations (column permutation, list permutations, file vs inline) + reference model",
          "Byte-identical stdout under sample-column permutation, label-order-preserving list permutation and --samples/--samples-file; axes transposed by the label permutation otherwise; absolute check against the model; ghost sample / empty list are errors.",
          "Trusted: reference model; transposition done by the harness.", "DESIGN.md §3 C09"),
@@ -69,25 +69,25 @@ CHECKS.update({
 
 # additions made after the seeded-change rounds (appended to the level text above)
 EXTRA = {
- "C01": "Also --threads {unset,1,2,4,7}, BCF dictionaries with GT above index 127, and four-population spectra of 5 103..6 561 cells.",
+ "C01": "Also --threads {unset,1,2,4,7}, BCF dictionaries with GT above index 127 or without IDX attributes, lone-dot genotypes, duplicate positions, non-ASCII sample names, and four-population spectra of 5 103..6 561 cells.",
  "C02": "Large cohorts include rare-variant records (1..5 minor alleles, or nearly fixed) and tiny targets (1..6 chromosomes); a long-stream part (16..34 samples, 300..1400 records with ever-changing called/ALT pairs, targets 1..10) compares every cell with the model.",
  "C03": "Large one-axis cases are sparse or dense (every source row in one projection, target n/4..n); spectra of 4 160..8 910 cells in 2..4 axes; the laws are repeated on the normalised (Sfs) type-state.",
- "C04": "Shapes whose rows pass 4096/8192 elements; duplicates at every list position; the normalised (Sfs) type-state.",
+ "C04": "Shapes whose rows pass 4096/8192 elements; duplicates at every list position, for -m and -M alike; the normalised (Sfs) type-state.",
  "C05": "Spectra of 4 097..8 910 entries; each spectrum folded again on the normalised (Sfs) type-state and with NaN / +-inf entries, which must propagate and never be replaced by the fill.",
  "C06": "Estimator formulas also for 511..513, 1023..1025, 4096/4097 and up to 5000 chromosomes.",
  "C07": "Precisions 18..60, 100, 330, 400 with values down to 1e-40; intermediate files and fifos named with a matching, neutral, contradicting or no extension.",
- "C08": "Every string of ploidy <= 2 again in records whose ALT column lists 0 or 1 alleles (fewer than the genotype refers to).",
+ "C08": "Every string of ploidy <= 2 again in records whose ALT column lists 0 or 1 alleles (fewer than the genotype refers to). The lone '.' is classified as missing in both containers (no leniency any more).",
  "C09": "The samples file also without final newline, with CRLF, and read from a pipe (-S /dev/stdin); the ghost sample also together with a projection or --strict -q.",
- "C10": "The strict run at every log verbosity (-v..-vvv, -q, -qq); under --strict a skippable record before any kind of fault (ploidy, malformed line, truncated stream) must be the one named.",
+ "C10": "Truncated BGZF files with record-aligned blocks (cut inside a block payload, 1 and 4 threads) and raw BCF cut from one byte into a record must fail. The strict run at every log verbosity (-v..-vvv, -q, -qq); under --strict a skippable record before any kind of fault (ploidy, malformed line, truncated stream) must be the one named.",
  "C11": "Streams of 1 025..20 000 records through the binary; cohorts of 86..700 samples (tables that grow with the chromosome count) under split / permutation / reversal.",
  "C12": "Also a pipe named by path (/dev/stdin) and a named pipe (mkfifo), BCF dictionaries with GT above index 127, one further option per case (projection, --strict, -vv, -q).",
  "C13": "One case in twelve has 4 097..8 200 entries.",
  "C14": "Spectra of 4 098..8 910 entries; through the CLI also the input scaled by 2^-70 and folded at --precision 60 (scale-free statistics).",
  "C15": "Reader: files of 511..8 193 values (data sections around 512 B..64 KiB) with every value compared; writer through `-o` onto an existing longer file.",
  "C16": "Files whose data section is a whole multiple of 512 B..128 KiB; damaged files under names ending .npy/.sfs/.txt/.bin/none; `-O npy`, `-O text`, `-o FILE` variants (the -o file must not hold a spectrum either).",
- "C17": "Every tuple of <= 3 declared axis lengths over {0,1,2,3,2^32,2^63,2^64-1} (text) and {0,1,2,2^32,2^64-1} (npy); npy shape () with 0/1/3 values; every statistic family on them.",
- "C18": "Each fault once persistent and once transient (a single failing call, later calls succeed); EPIPE and ENOSPC on the binary's stdout.",
- "C19": "Arrays of 1 025..8 193 elements; sums on signed fills (all negative, mixed with zeros, sign by position).",
+ "C17": "Every tuple of <= 3 declared axis lengths over {0,1,2,3,2^32,2^63,2^64-1} (text) and {0,1,2,2^32,2^64-1} (npy); npy shape () with 0/1/3 values; 5 000..40 000 axes of length 1; every statistic family on them; 20..70 one-sample populations.",
+ "C18": "Each fault once persistent and once transient (a single failing call, later calls succeed), call-set faults also with error kinds UnexpectedEof and BrokenPipe; EPIPE and ENOSPC on the binary's stdout, and a file-size limit that makes a write fail in the middle or in the last block of the output.",
+ "C19": "Arrays of 1 025..8 193 elements; all 220 shapes with a zero-length axis among <= 4 axes of length 0..3; iterators over axes that do not exist; sums on signed fills (all negative, mixed with zeros, sign by position).",
 }
 
 NOT_YET = {}
